@@ -100,6 +100,52 @@ def chain_family(n):
                 idx += 1
 
 
+def t_deep(acc):
+    """One deliberately large instance: a^n b with n pushes and n epsilon pops, limit above the default of 1000 and a
+    closure between 1000 and the limit (a limit that is read once, e.g. at import, is only visible here)."""
+    from gambatools.pda_algorithms import pda_accepts_word
+    from gambatools.global_settings import GambaTools
+    n = 1005
+    spec = ('pda', 3, 2, 1, ((0, 0, 1, 0, 0), (0, 1, 1, 1, 1), (1, 2, 0, 1, 1), (1, 2, 1, 2, 1)), 0, 4)
+    # s0 -a,e->x s0 ; s0 -b,e->e s1 ; s1 -e,x->e s1 ; s1 -e,e->e s2 ;  F = {s2}
+    R = pda.ref(spec)
+    P = pda.build(spec)
+    rp = {'fn': 'mc.props.c09:t_deep', 'mode': 'plain', 'params': {}}
+    old = GambaTools.pda_epsilon_closure_max_iterations
+    try:
+        for lim, word, exp in ((2 * n + 50, 'a' * n + 'b', True), (2 * n + 50, 'a' * 3 + 'b', True), (5, 'a' * 2 + 'b', True)):
+            GambaTools.pda_epsilon_closure_max_iterations = lim
+            inst = {'pda': pda.show(spec), 'word': 'a^{} b'.format(len(word) - 1), 'limit': lim, 'largest_closure': 2 * (len(word) - 1) + 2}
+            ok, got = core.lib_call(acc, 'pda_accepts_word', inst, pda_accepts_word, P, word, repro=rp)
+            acc.transitions += 1
+            acc.states += 1
+            if ok:
+                acc.evals += 1
+                if got is not exp:
+                    acc.viol('pda_accepts_word', 'rejects a word of the language although every epsilon closure fits the limit', inst, repro=rp, observed=got, expected=exp)
+    finally:
+        GambaTools.pda_epsilon_closure_max_iterations = old
+
+
+def multichar_family():
+    """Stack symbols of several characters whose concatenations coincide: [A,B] and [AB] must stay different stacks."""
+    idx = 0
+    for pop_sym in (0, 1, 2):
+        for target in range(3):
+            for f in range(3):
+                for extra in (None, (2, 0, 1, 2, 3), (2, 0, 2, 2, 3)):
+                    tr = {(0, 1, 3, 1, 0), (1, 1, 3, 2, 1), (0, 1, 3, 2, 2), (2, 0, pop_sym, target, 3)}
+                    if extra:
+                        tr.add(extra)
+                    yield idx, ('pda', 3, 1, 3, tuple(sorted(tr)), 0, 1 << f)
+                    idx += 1
+
+
+def t_multichar(acc, L):
+    for idx, spec in multichar_family():
+        check(acc, spec, L, (5, 8), ('A', 'B', 'AB'), '_')
+
+
 def t_chain(acc, n, L):
     for idx, spec in chain_family(n):
         check(acc, spec, L, tuple(range(max(1, n - 1), n + 3)), ('x', 'y'), '_')
@@ -113,6 +159,8 @@ def plan(tier, seed):
     def add(n, k, g, t, L, ns, stride=1, limits=LIMITS, stack=('x', 'y'), eps='_', tmin=0, morph=False):
         tasks.extend(('plain', P, {'n': n, 'k': k, 'g': g, 't': t, 'L': L, 'shard': s, 'nshard': ns, 'stride': stride, 'offset': seed, 'limits': list(limits), 'stack': list(stack), 'eps': eps, 'tmin': tmin, 'morph': morph}) for s in range(ns))
 
+    tasks.append(('plain', 'mc.props.c09:t_deep', {}))
+    tasks.append(('plain', 'mc.props.c09:t_multichar', {'L': 2}))
     add(1, 1, 1, 4, 4, 1)
     add(1, 1, 1, 4, 3, 1, morph=True)
     add(2, 1, 1, 2, 3, 4, morph=True)
@@ -138,4 +186,4 @@ def plan(tier, seed):
         bounds = 'PDA(2,1,1,<=3) x words <= 4; PDA(2,2,1,<=2), PDA(2,1,2,<=2) x words <= 3; strides 1/8 of PDA(2,2,1,3), PDA(2,1,1,4), 1/16 of PDA(3,1,1,3); limits 1,2,3,5,8; stride 1/16 with limits 13, 1000'
     return {'tasks': tasks, 'bounds': {'spaces': bounds}, 'exhaustive': True,
             'rule': 'every labelled PDA in the bounds x every word x every listed value of pda_epsilon_closure_max_iterations; soundness vs saturation oracle for every limit; completeness demanded iff explicit configuration search shows every closure on the way has at most `limit` configurations; non-trivial = PDA with a word of the language inside the premise',
-            'assumptions': ['closure premise evaluated on the exact configuration sets (oracle), capped at max(limit)+1', 'small spaces are presented a second time through one live PDA object rewritten in place (detects per-object caches)', 'epsilon-chain family with self-loops (n = 2..5) at limits n-1..n+2: closures with few configurations but many applicable epsilon steps']}
+            'assumptions': ['closure premise evaluated on the exact configuration sets (oracle), capped at max(limit)+1', 'small spaces are presented a second time through one live PDA object rewritten in place (detects per-object caches)', 'epsilon-chain family with self-loops (n = 2..5) at limits n-1..n+2: closures with few configurations but many applicable epsilon steps', 'one deep instance a^1005 b with limit 2060 (closure of 2012 configurations, above the default limit)', 'a family with the stack symbols A, B, AB (constructor-built PDAs; the text format only has one-character symbols)']}
